@@ -18,6 +18,7 @@ def _setup(tier):
     drive.install_draw()
     _STATE['tier'] = tier
     _STATE['hints'] = HE.hints(tier)
+    _STATE['shards'] = HE.shards(_STATE['hints'], NSHARDS)
     _STATE['confs'] = drive.confs()
     _STATE['res'] = drive.residues(3, tier)
 
@@ -96,7 +97,7 @@ def check_hint(t, cname, conf, gen, res, part, cap=None, seed=0):
 
 def _work(shard):
     tier = _STATE['tier']
-    hints = _STATE['hints'][shard::NSHARDS]
+    hints = _STATE['shards'][shard]
     confs = _STATE['confs']
     res = _STATE['res']
     seed = _STATE.get('seed', 0)
@@ -129,7 +130,7 @@ def run(ctx):
     _STATE['seed'] = ctx.seed
     hints = _STATE['hints']
     tot = {'evaluations': 0, 'states': 0, 'nontrivial': 0, 'hints': 0, 'warnings': 0}
-    for part in ctx.pmap(_work, range(NSHARDS)):
+    for part in ctx.pmap(_work, range(NSHARDS), fresh=True):
         for k in tot:
             tot[k] += part['cover'][k]
         for v in part['violations']:
